@@ -35,6 +35,16 @@ ASSUMPTIONS = [
     "force-quit: KeyboardInterrupt raised wherever the main thread is) is not represented - when the command's own code was already "
     "interrupted by SIGINT, the Ctrl-C at the database statement is delivered by Task.cancel(). One fault point breaks the property on the tree as it is "
     "(Ctrl-C at the INSERT of insert_run_meta: known_findings.jsonl; `Fault.bad`)",
+    "contention on the database file (a second gallia process that logs into the same --db) is represented by a second sqlite3 "
+    "connection opened by the harness that takes the write lock (BEGIN IMMEDIATE + one INSERT) when the run enters insert_run_meta / "
+    "complete_run_meta / disconnect and commits 0.3 - 1.5 s later on a timer thread of its own (one contention per run, no other "
+    "fault in the same run; contention during DBHandler.connect and at the scan-run / queue statements is not represented). The "
+    "model (Model/LifecycleDb.lean runC) takes the busy timeout the run's connection really has (read with `PRAGMA busy_timeout` "
+    "when the phase is entered) and turns a hold >= that timeout into `database is locked` at the first statement of the phase that "
+    "needs the write lock; the demands are the property-level clauses of the undisturbed run for every hold below the documented "
+    "10000 ms (violationsC; theorems short_contention_invisible / short_contention_consistent over any phase, duration, kind and "
+    "ending): sqlite's own busy handler (waits until the lock is free or the timeout is over; a deferred BEGIN holds no snapshot) "
+    "is trusted",
     "the lock file: 'cannot be locked' is represented by a lock file below a missing directory / below a regular file (any "
     "OSError of open / flock takes the same `except OSError` -> exit 72); 'held by somebody else' by a second descriptor in "
     "the same process that releases it once the run has logged that it waits; Ctrl-C during that wait by SIGINT / "
@@ -170,6 +180,8 @@ def describe(c):
         parts.append("dbclose=" + c["dbclose"])
     if c.get("dbfault"):
         parts.append("dbfault=" + fault_name(c["dbfault"]))
+    if c.get("dbbusy"):
+        parts.append("another-writer-holds-the-database-lock=from-" + busy_name(c["dbbusy"]))
     if c["f_tpStop"] == "cancel" and (c.get("how") or {}).get("tpStop") == "on-entry":
         parts.append("ctrl-c-before-the-tester-present-task-is-awaited")
     if w["lock"] != "free":
@@ -187,6 +199,12 @@ def fault_name(f):
     return f"{f['call']}.{f['idx']}.{f['mode']}"
 
 
+def busy_name(b):
+    return f"{b['phase']}-for-{b['hold']}ms"
+
+
+BUSY_PHASES = ["insert", "complete", "disconnect"]   # Model/LifecycleDb.lean: Phase
+BUSY_TIMEOUT_MS = 10000                              # Model/LifecycleDb.lean: BUSY_TIMEOUT_MS (what DBHandler.connect documents)
 DB_CALLS = {"connect": 5, "insert": 2, "complete": 2, "disconnect": 1}   # awaited statements per call (Model/LifecycleDb.lean: awaits)
 
 
@@ -201,7 +219,15 @@ def db_body(c):
     return evs[0] if evs else "ok"
 
 
-def db_line(op, c):
+def db_line(op, c, o=None):
+    if c.get("dbbusy"):
+        b = c["dbbusy"]
+        busy = (o or {}).get("busy") or {}
+        hold = b["hold"] if busy.get("established") else 0   # (the other writer never got the lock: no contention)
+        if op == "dbrun":   # the model follows the code: the connection waits as long as the code has told it to
+            t = busy.get("timeout_ms")
+            return " ".join(["dbbusy", c["kind"], b["phase"], str(hold), str(BUSY_TIMEOUT_MS if t is None else t), db_body(c)])
+        return " ".join(["dbbusyspec", c["kind"], b["phase"], str(hold), db_body(c)])
     f = c["dbfault"]
     return " ".join([op, c["kind"], f["call"], str(f["idx"]), f["mode"], db_body(c)])
 
@@ -219,7 +245,7 @@ def complexity(c):
     c = norm(c)
     w = c["world"]
     return (sum(1 for k in SCRIPT_ORDER if c[k] not in ("ok", "started")) + (0 if world_benign(c) else 1) + len(w["runs"])
-            + (1 if c.get("dbfault") else 0),
+            + (1 if c.get("dbfault") else 0) + (1 if c.get("dbbusy") else 0),
             sum(1 for r in RES + FLAGS if c[r]), KINDS.index(c["kind"]), describe(c))
 
 
@@ -475,6 +501,20 @@ def build_cases(ctx):
                                 "insert_run_meta (2), complete_run_meta (2), disconnect (1) and one past the last x {the statement fails "
                                 "with OperationalError, Ctrl-C (SIGINT / Task.cancel) while it is awaited} x 3 kinds x "
                                 f"{len(bodies)} endings of the command's own code")
+    # 1d. contention: another writer holds the write lock of the database file from the moment the run enters insert_run_meta /
+    #     complete_run_meta / disconnect, for a time well inside the busy timeout (real time: a handful of cases)
+    cbodies = [None, "ok", "exit:3", "conn", "other", "kbd"] if full else [None]
+    for kind in KINDS:
+        for phase in BUSY_PHASES:
+            for b in cbodies + [rng.choice(["exit:3", "conn", "other", "kbd", "uds", "exit:" + str(rng.randrange(1, 256))])]:
+                res = "0010" if b is None else "0110" if b == "ok" else "1111"
+                c = mk(kind, res, flags=rng.choice(["0000", "0011"]) if kind == "uds" else "0000",
+                       **({} if b in (None, "ok") else {rng.choice(POINTS): b}))
+                c["dbbusy"] = {"phase": phase, "hold": rng.randrange(300, 1501)}
+                cases.append(("db-contention", pick_how(rng, c)))
+    ctx.exhaustive_parts.append("a second sqlite connection takes the write lock (BEGIN IMMEDIATE + a write) when the run enters "
+                                "insert_run_meta / complete_run_meta / disconnect and commits 0.3 - 1.5 s later (timer thread) x 3 kinds x "
+                                f"{len(cbodies) + 1} endings of the command's own code")
     # 2. every concrete exception class / way of cancelling / non-int exit code, everything switched on
     for kind in KINDS:
         for p in (POINTS if full else ["main"]):
@@ -675,10 +715,11 @@ def evaluate(ctx, runner, cases):
                                + ["|", fins[i][0]]) for i in idx])
     spec_by = dict(zip(idx, spec))
     # a fault at an await inside a database call: Model/LifecycleDb.lean is the model and carries the demands
-    dbi = [i for i in idx if cases[i].get("dbfault")]
-    dbmodel = dict(zip(dbi, ctx.lean([db_line("dbrun", cases[i]) for i in dbi])))
+    # (and contention on the database file: the same model, the fault being what the connection's busy timeout makes of it)
+    dbi = [i for i in idx if cases[i].get("dbfault") or cases[i].get("dbbusy")]
+    dbmodel = dict(zip(dbi, ctx.lean([db_line("dbrun", cases[i], obs[i]) for i in dbi])))
     dbproj = {i: db_projection(cases[i], fins[i][0], obs[i]) for i in dbi}
-    dbspec = dict(zip(dbi, ctx.lean([db_line("dbspec", cases[i]) + " | " + dbproj[i] for i in dbi])))
+    dbspec = dict(zip(dbi, ctx.lean([db_line("dbspec", cases[i], obs[i]) + " | " + dbproj[i] for i in dbi])))
     out = []
     for i, (c, o) in enumerate(zip(cases, obs)):
         fin, direct, _t = fins[i]
@@ -686,7 +727,7 @@ def evaluate(ctx, runner, cases):
             out.append((None, model[i], [], direct, [] if o.get("skipped") else ["harness-error"], o))
             continue
         if i in dbmodel:
-            tag = "[" + fault_name(c["dbfault"]) + "]"
+            tag = "[" + (fault_name(c["dbfault"]) if c.get("dbfault") else "another-writer-at-" + c["dbbusy"]["phase"]) + "]"
             sv = dbspec[i]
             clauses = [] if sv == "ok" else ["unparseable-observation"] if sv == "bad-op" else [x + tag for x in sv.split(",")]
             f = split_final(fin)
@@ -694,6 +735,12 @@ def evaluate(ctx, runner, cases):
                 clauses.append("meta-exit-code" + tag)
             pm, pi = split_final(dbmodel[i]), split_final(dbproj[i])
             diff = [k + tag for k in pm if pm[k] != pi.get(k)]
+            if c.get("dbbusy"):
+                busy = o.get("busy") or {}
+                if not busy.get("released", True) or "release_error" in busy:
+                    direct.append("harness:the-other-writer-did-not-release-the-lock")
+                if busy.get("established") and busy.get("timeout_ms") is None:
+                    diff.append("busy-timeout-not-readable" + tag)
             out.append((fin, dbmodel[i], clauses, [d + tag for d in direct], diff, o))
             continue
         sv = spec_by[i]
@@ -808,6 +855,9 @@ def run(ctx):
                 groups.setdefault(("direct", dn), []).append(i)
             if diff and not clauses and not direct:
                 groups.setdefault(("tie", "+".join(sorted(set(x.split(":")[0] for x in diff)))), []).append(i)
+            if c.get("dbbusy"):
+                ctx.kind("db-contention:" + c["dbbusy"]["phase"],
+                         "db-contention:" + ("established" if (o.get("busy") or {}).get("established") else "not-established"))
             if c.get("dbfault"):
                 ctx.kind("dbfault:" + fault_name(c["dbfault"]).rsplit(".", 1)[0], "dbfault-mode:" + c["dbfault"]["mode"])
         ctx.traces_validated += len(cases)
@@ -848,7 +898,7 @@ def run(ctx):
             else:
                 pred = lambda r, name=name: bool(r[4]) and not r[2] and not r[3]  # noqa: E731
             # (database-fault cases: the set contains the smallest run for every fault point, so the smallest of the group is it)
-            small = start if start.get("dbfault") else shrink(ctx, runner, start, pred)
+            small = start if start.get("dbfault") or start.get("dbbusy") else shrink(ctx, runner, start, pred)
             r = evaluate(ctx, runner, [small])[0]
             fin, mod, clauses, direct, diff, o = r
             key = f"{gk}:{name}@{describe(small)}"
@@ -856,7 +906,7 @@ def run(ctx):
             alts = ctx.lean([" ".join(["run", "".join(q), world_token(small), small["kind"], cfg_bits(small)] + script_words(small))
                              for q in itertools.product("01", repeat=NQ)])
             match = [q for q, a in zip(itertools.product("01", repeat=NQ), alts)
-                     if fin is not None and not small.get("dbfault") and not tie_diff(a, fin)]
+                     if fin is not None and not small.get("dbfault") and not small.get("dbbusy") and not tie_diff(a, fin)]
             like = ""
             if match and gk != "tie":
                 q = min(match, key=lambda q: q.count("1"))
@@ -922,7 +972,11 @@ MANIFEST = {
                    "the sqlite thread still performs it; Model/LifecycleDb.lean, theorem dbfault_consistent_iff over every fault point, "
                    "index unbounded, every kind and every ending of the command): exit code from the mapping, run entry absent or "
                    "completed with that code, connection closed, finally block run to its end - except exactly at Ctrl-C during the "
-                   "INSERT (recorded defect); which half-finished setups / teardowns leave the transport, the "
+                   "INSERT (recorded defect); another writer holding the database's write lock from the entry of insert_run_meta / complete_run_meta / "
+                   "disconnect for any time shorter than the connection's busy timeout is invisible (short_contention_invisible, "
+                   "short_contention_consistent; long_contention_loses_the_record: a timeout below the hold leaves the run entry without "
+                   "end time - so the documented 10 s matter), checked on real runs with a second sqlite connection that holds BEGIN IMMEDIATE "
+                   "for 0.3 - 1.5 s; which half-finished setups / teardowns leave the transport, the "
                    "tester-present task or dumpcap behind is characterised exactly. The except ladder, the statement order of "
                    "entry_point, prepare_artifacts_dir and the four setup / teardown methods with their guards, the exit "
                    "constants (incl. OSFILE), mkdir's flags and CATCHED_EXCEPTIONS are regenerated from the AST / live modules "
